@@ -1,5 +1,5 @@
 """C04 -- the right-hand side handed to the ODE driver is exactly the documented kinetic equation (callback contract under a GSL stub)."""
-import sys, time, os, json, math, subprocess
+import math, sys, time, os, json, math, subprocess
 from fractions import Fraction
 from multiprocessing import Pool as MPool
 import numpy as np
@@ -16,6 +16,9 @@ SCRIPTS = {
     'A': [{'cb': [(0, 0), (1, 1), (2, 0)]}, {'cb': [(0, 1), (2, 1), (1, 0)]}],
     'B': [{'cb': [(0, 0), (0, 0), (1, 1)]}, {'cb': [(0, 0), (2, 0)]}],
     'C': [{'cb': [(0, 1)]}, {'cb': [(0, 1), (1, 1), (1, 0)]}],
+    # the real adaptive driver re-uses the derivative of the previous step: a later integration call may start at a scratch buffer (measured, see h_gsl_contract)
+    'D': [{'cb': [(0, 0), (1, 1)]}, {'cb': [(1, 1), (0, 0), (2, 1)]}],
+    'E': [{'cb': [(2, 0), (0, 1)]}, {'cb': [(1, 0)]}],
 }
 
 
@@ -148,7 +151,7 @@ def work(item):
     for mask in masks:
         orders = range(5) if bin(mask).count('1') == 1 else [mask % 5]
         for order in orders:
-            for script in (['A', 'B', 'C'] if (tier == 'thorough' or mask in (1, 7, 31, 24)) else ['A' if mask % 2 else 'B']):
+            for script in (['A', 'B', 'C', 'D', 'E'] if (tier == 'thorough' or mask in (1, 7, 31, 24)) else ['A' if mask % 2 else 'B'] + (['D', 'E'] if mask in (2, 5, 16) else [])):
                 s = check_config(out, solver, tw, d, nx, nrho, nsc, mask, order, script, adaptive=(mask % 3 != 0))
                 stats.append(s.ex.stats)
                 nconf += 1
@@ -282,10 +285,10 @@ def main(tier):
                          'driver behaviours': 'callback scripts of <=3 RHS calls per integration call with input buffer in {y, scratch1, scratch2}, output buffer in {deriv1, deriv2}, over two consecutive Evolve calls (last-pointer cache); adaptive and fixed stepping entry points; success and failure status',
                          'values': 'state, dt, t_ini, stepper times and every user term symbolic (terms are uninterpreted functions of (node, index, time, component))'}
     chk.cov['domains'] = ['R (exact reals) with uninterpreted user terms']
-    chk.cov['stubs'] = ['gsl_odeiv2_driver_alloc_y_new / set_* / apply / apply_fixed_step / free: checks/gslstub.py (nondeterministic, contract respecting; first callback of each integration call at in=y)',
+    chk.cov['stubs'] = ['gsl_odeiv2_driver_alloc_y_new / set_* / apply / apply_fixed_step / free: checks/gslstub.py (nondeterministic, contract respecting: callbacks read the state array or a driver-owned scratch buffer and write a driver-owned derivative buffer)',
                         'user terms and PreDerive: intrinsics verif_term / verif_prederive']
     chk.assumptions = ['OUTSIDE THE TECHNIQUE: agreement of the integrated state with closed-form solutions to the requested tolerance for every GSL stepper -- GSL is a compiled library with no IR; this clause is only exercised in the native replay of candidates, not decided',
-                       'GSL calls the system function only with buffers it owns and the first call of an integration at the state vector (validated against the real driver by the native replay harness)',
+                       'GSL calls the system function with the state array or buffers it owns as input and a buffer it owns as output, at times inside the integration interval (validated on every run against the real driver: 6 steppers x adaptive/fixed, 3 consecutive integrations each; measured there: the adaptive driver starts a later integration at a scratch buffer, which the scripts D and E cover)',
                        'control flow inside the callback is concrete (switches enumerated, not symbolic)']
     Session([])      # build the IR once before forking
     Harness('c04.cpp', LIBS, defines=('VERIF_SYMBOLIC',))
@@ -299,6 +302,18 @@ def main(tier):
     chk.cov['native_closed_form'] = info
     if okv:
         chk.broken_q('native integration of the documented equation disagrees with scipy on the unchanged tree: %s' % info)
+    # the stub's contract against the real driver: every explicit stepper, adaptive and fixed entry points
+    hn = Harness('c04.cpp', LIBS)
+    contract = {}
+    for stepper, nm in enumerate(('rk2', 'rk4', 'rkf45', 'rkck', 'rk8pd', 'msadams')):
+        for adaptive in (1, 0):
+            ret, o = hn.native('h_gsl_contract', [I(stepper), I(adaptive), Buf('res', n=8)])
+            calls, first_not_y, out_is_in, out_is_y, t_outside, tend, y0, y1 = o['res']
+            contract['%s/%s' % (nm, 'adaptive' if adaptive else 'fixed')] = {'callbacks': int(calls), 'first_not_at_y': int(first_not_y), 'out_is_in': int(out_is_in), 'out_is_y': int(out_is_y), 'time_outside_interval': int(t_outside)}
+            chk.cov['interp_vs_native']['cases'] += 1
+            if ret != 0 or out_is_in or out_is_y or t_outside or abs(tend - 1.5) > 1e-9 or abs(y0 - math.cos(1.5)) > 1e-3:
+                chk.broken_q('the GSL driver stub\'s contract does not hold for the real driver (%s, %s): %r' % (nm, 'adaptive' if adaptive else 'fixed', o['res']))
+    chk.cov['gsl_stub_contract_vs_real_driver'] = contract
     seen = set()
     for c in chk.candidates:
         k0 = c['key'].split(':d=')[0] + c['key'].split('mask=')[-1]
